@@ -273,6 +273,9 @@ func newSliceDecoder(decoder *encoding.DecodeAssembler[Value, any]) encoding.Dec
 				return encoding.DecodeFunc(func(source Value, target unsafe.Pointer) error {
 					t := reflect.NewAt(typ.Elem(), target).Elem()
 					if s, ok := source.(Slice); ok {
+						if t.Kind() == reflect.Slice && t.IsNil() {
+							t.Set(reflect.MakeSlice(t.Type(), 0, s.Len()))
+						}
 						for t.Len() < s.Len() {
 							if t.Kind() != reflect.Slice {
 								return errors.WithStack(encoding.ErrUnsupportedValue)
